@@ -89,7 +89,16 @@ impl Method for PhoneticMethod {
         data: &Data,
         config: &Config,
     ) -> Suggestion {
-        let character = keycode_to_char(key);
+        let character = match keycode_to_char(key) {
+            Some(character) => character,
+            // The key doesn't represent any character (eg. keypad Enter), so the input is unchanged.
+            None => {
+                if self.buffer.is_empty() {
+                    return Suggestion::empty();
+                }
+                return self.create_suggestion(data, config);
+            }
+        };
         self.buffer.push(character);
         let mut suggestion = self.create_suggestion(data, config);
 
